@@ -22,8 +22,9 @@ class World:
         self.pk = pki.sign(b"x")                  # any PKCS#7 blob that parses: a file handed over by the caller is not PKI-checked
         self.keys = {
             "wide": pki.key_cert("k_wide", "20100101000000Z", "21000101000000Z"),
-            "late": pki.key_cert("k_late", "20200101000000Z", "21000101000000Z"),
-            "early": pki.key_cert("k_early", "20100101000000Z", "20120101000000Z"),
+            # validity edges with no zero and no repeated digit pair: every field of the ASN.1 time counts
+            "late": pki.key_cert("k_late2", "20200317134756Z", "21000101000000Z"),
+            "early": pki.key_cert("k_early2", "20100101000000Z", "20121128192738Z"),
         }
         self.ec = pki.ec_cert()
 
@@ -53,7 +54,8 @@ def key_cases(rng, W, ver):
     cid = b"\x11\x22\x33\x44"
     for kn, edge in (("late", W.keys["late"][2]), ("early", W.keys["early"][3])):
         der, keyfile, nb, na = W.keys[kn]
-        for t, p in ((edge - 10, edge + 1000), (edge, edge + 1000), (edge + 1, edge + 1000), (edge - 1000, edge - 1), (edge - 1000, edge)):
+        for t, p in ((edge - 10, edge + 1000), (edge, edge + 1000), (edge + 1, edge + 1000), (edge - 1000, edge - 1), (edge - 1000, edge),
+                     (edge - 45, edge + 1000), (edge + 7, edge + 1000), (edge - 3000, edge + 5), (edge + 3000, edge + 9000), (edge - 80000, edge), (edge + 80000, edge + 90000)):
             s = at_times(rng, t, p)
             s.auth_sd = (SIGTYPE, pki.rsa_sign(keyfile, S.published_data(*s.auth)), cid)
             label = "ok" if nb <= t <= na else "fail:1027"
@@ -146,6 +148,8 @@ def gen(rng, tier):
             yield L("userpub", "fail:770", userpub=good_up, ext=1, rep=R(S.Cal(later + 1, t, root, list(ext_chain.links))))   # PUB-02 pub time
             other_t = S.extender_chain(rng, s, t + 1, max(later, t + 1), root)
             yield L("userpub", "fail:770", userpub=up(other_t.pub_time, other_t.root()), ext=1, rep=R(other_t))          # PUB-02 aggregation time
+            no_at = S.Cal(later, None, root, list(ext_chain.links))                                                      # the reply's chain does not state its aggregation time
+            yield L("userpub", "fail:770", userpub=good_up, ext=1, rep=R(no_at))
             h = bytearray(root); h[-1] ^= 2
             wrong_in = S.Cal(later, t, bytes(h), list(ext_chain.links))
             yield L("userpub", "fail:771", userpub=up(later, wrong_in.root()), ext=1, rep=R(wrong_in))                   # PUB-03
@@ -173,6 +177,7 @@ def gen(rng, tier):
             yield L("pubfile", "fail:769", ext=1, rep=R(ext_chain), pf=W.pubfile([], others + [(later, S.H(1, b"other"))]))
             yield L("pubfile", "fail:770", ext=1, rep=R(S.Cal(later + 1, t, root, list(ext_chain.links))), pf=pf_ext)
             yield L("pubfile", "fail:771", ext=1, rep=R(wrong_in), pf=W.pubfile([], others + [(later, wrong_in.root())]))
+            yield L("pubfile", "fail:770", ext=1, rep=R(no_at), pf=pf_ext)
             if other_t.pub_time == later:
                 yield L("pubfile", "fail:770", ext=1, rep=R(other_t), pf=W.pubfile([], others + [(later, other_t.root())]))   # other aggregation time
             yield L("pubfile", "na:extender-status", ext=1, rep=R(ext_chain, status=0x202), pf=pf_ext)
